@@ -96,6 +96,7 @@ class Shadow:
         self.ftasks = {}    # name -> dict(deps, target(ckey), weights, const)
         self.knobs = {}     # name -> dict(source(path), weights, targets(ckeys), prev)
         self.order = []     # knob names in registration order
+        self.stale = False  # set once a definition was registered without being evaluated (load)
 
     def clone(self):
         other = Shadow.__new__(Shadow)
@@ -104,6 +105,7 @@ class Shadow:
         other.ftasks = {k: dict(v) for k, v in self.ftasks.items()}
         other.knobs = {k: dict(v) for k, v in self.knobs.items()}
         other.order = list(self.order)
+        other.stale = self.stale
         return other
 
     # -- locations ------------------------------------------------------------
@@ -298,6 +300,15 @@ class Shadow:
             else:
                 del self.knobs[name]
                 self.order.remove(name)
+        elif k == "load":
+            # load registers definitions WITHOUT evaluating them: values stay as they are until
+            # something upstream is assigned; from here on shadow values are not authoritative
+            for p, t in op[1]:
+                ck = self.ckey(p)
+                self.eval(t)        # building the expression evaluates its literal-only parts
+                if op[2] or ck not in self.defs:
+                    self.defs[ck] = t
+                    self.stale = True
         elif k in ("refresh", "cleanup", "verify", "freeze", "unfreeze"):
             pass
         else:
